@@ -160,7 +160,8 @@ typedef void (*violation_sink_fn)(const char *sig, const char *msg);
 void set_violation_sink(violation_sink_fn fn);
 
 // for the runner
-void init_process(int pool_threads);
+void init_process(int max_threads);
+uint64_t os_threads_created(); // process lifetime (ASan caps the number of threads a process may ever create)
 // run once on every OS thread of the pool (and on the calling thread) before any simulated run: lets the runner warm up
 // thread-local first-use state inside the library, so that no run depends on which runs used that OS thread before
 void set_thread_warmup(void (*fn)(void));
